@@ -304,4 +304,7 @@ def new_scratch(tag="run"):
     d = os.path.join(base, "verif.%d.%s" % (os.getpid(), tag))
     shutil.rmtree(d, ignore_errors=True)
     os.makedirs(d)
+    # the daemon's library_path is the relative name "lib": the configuration text (and with it torn-file cut
+    # points and the history hash) must not depend on where the build directory is
+    os.symlink(MODS, os.path.join(d, "lib"))
     return d
